@@ -402,8 +402,9 @@ prop(
 prop(
     "C14",
     ["LolHtml.Thm.C14_Locations", "LolHtml.Thm.C14_TextNodes"],
-    [{"lane": "attrs", "n_quick": 2000, "n_thorough": 20000}, {"lane": "lex", "n_quick": 2000, "n_thorough": 30000}],
-    LEX_RULE,
+    [{"lane": "attrs", "n_quick": 2000, "n_thorough": 20000}, {"lane": "lex", "n_quick": 2000, "n_thorough": 30000},
+     {"lane": "enc", "n_quick": 2000, "n_thorough": 20000}],
+    LEX_RULE + "; lane enc (package enc's decoder lane, secondary here): the source ranges of the decoder-level text chunks (contiguous, covering the text node, closing chunk at its end) are reported under C14 as well",
     ["C14_ranges_all_controllers assumes CtlClean (an error returned by a handler is a handler-class error, not one of the model's markers for a Rust panic) and the decidable table side-conditions WfTable (package inv) and EmitsChecked, both evaluated on the generated table; C14_text_contiguous and C14_independent_of_rewrites need EmitsChecked only and no assumption on the controller",
      "text-node theorems are about the tokens the dispatcher model hands over (one chunk per text lexeme plus the closing chunk); the split of one lexeme into decoder chunks is package enc's model (C13), joined by C14_text_node_decoder_ranges; that a text node's lexemes are what the standard calls one text node is C01/C03's subject",
      MODEL_SCOPE],
